@@ -12,7 +12,8 @@ Compared with the model (coq/model/History.v): the full event trace of every
 request, the requests owning the frames in the traceback chain of every shared
 errors_map error, and the requests whose input stream is still alive.
 Oracle: the response of request k equals the response of the same request on a
-fresh application served on a fresh thread; alive streams <= 1 + |errors_map|;
+fresh application in a fresh process on a fresh thread; alive environs / input streams
+<= 1 + 2 x |errors_map| and only of requests a shared error refers to (traceback or __context__);
 every shared error's chain holds frames of at most one request.
 """
 import gc
@@ -888,7 +889,8 @@ MANIFEST = dict(
           'current request and of the response object as handed over; arbitrary error handlers), ALL pairs of thread states '
           'and ALL requests (decodable or not, any outcome class of the C03 grammar incl. raises of shared errors_map '
           'entries) the observable response is the same; C09_history_equals_fresh (every response of every history = fresh '
-          'application); C09_retention_bounded — after ANY history at most 1 + |errors_map| requests are alive. The pre-fix '
+          'application); C09_retention_bounded — after ANY history at most 1 + 2 x |errors_map| requests may be alive (the last one; '
+          'per shared error the request in its __traceback__ and the one whose exception is its __context__). The pre-fix '
           'code is kept as variants: C09_F11_bad_path_carryover_refuted, C09_F12_retention_refuted (unbounded). Tied to /repo '
           'by a history correspondence (event traces, traceback owners of the shared errors, weak-reference liveness) and an '
           'oracle comparing every request with a fresh application in a fresh process on a fresh thread.'),
